@@ -660,14 +660,15 @@ def check(run: Run):
             # alignments of 6 columns, row x of 4 residues: every state, a seeded sample of the other histories
             ("aln", "MC_Annotation_aln_thorough.cfg", "aln", float(env("VERIF_C04_EDGES", "0.1")), 0),
             # P = 6, views of copies / feature slices explored as well: every state, seeded sample of the other histories and of the windows
-            ("views", "MC_Annotation_thorough.cfg", "seq", float(env("VERIF_C04_EDGES", "0.1")), float(env("VERIF_C04_WINDOWS", "0.15"))),
+            ("views", "MC_Annotation_thorough.cfg", "seq", float(env("VERIF_C04_EDGES", "0.07")), float(env("VERIF_C04_WINDOWS", "0.1"))),
         ]
     only = env("VERIF_C04_STAGES")  # debugging aid
     if only:
         plan = [p for p in plan if p[0] in only.split(",")]
     with Scratch("C04") as scratch:
         # all model-checking runs start now (they share the TLC worker budget) and are replayed in order as they finish
-        jobs = [TlcJob(scratch, name, cfg, level, max(2, NPROC // len(plan))) for name, cfg, level, _, _ in plan]
+        share = {"small": 2, "views": 4, "aln": 4} if len(plan) == 3 else {}
+        jobs = [TlcJob(scratch, name, cfg, level, share.get(name, max(2, NPROC // len(plan)))) for name, cfg, level, _, _ in plan]
         try:
             for job, (_, _, _, er, wr) in zip(jobs, plan):
                 stage(run, scratch, job, totals, tm, er, wr)
@@ -691,7 +692,7 @@ def check(run: Run):
         "x strand x every view aln[a:b] / rc(): alignment feature columns, rows of its slice, projection onto the other row; the same spans "
         "as an alignment-level feature. "
         "quick: P=5 / U=3,L=4, seeded 6% sample of the non-chain transitions and windows; thorough: P=5 with every transition and "
-        "window, P=6 with MaxCopy=1 (10% of non-chain transitions, 15% of windows), U=4,L=6 (10% of non-chain transitions). "
+        "window, P=6 with MaxCopy=1 (7% of non-chain transitions, 10% of windows), U=4,L=6 (10% of non-chain transitions). "
         "distinct_nontrivial = distinct (universe, view, feature) whose feature is only partly retained by the view and whose "
         "slice (string / alignment rows) was compared and agreed."
     )
